@@ -388,3 +388,39 @@ def locals_emit(F, res):
         res.ok('emit/locals', {'emit_locals': 'params get 0..n in order; every other used local gets the next slot, counter +1 each'})
     else:
         res.bad('emit/locals', 'emit_locals: ' + why)
+    # which locals are "the remaining ones": a used local is set aside for a declared slot exactly when it is not one of
+    # self.args - decided by a membership test against self.args, not by where the local sits in some order (ids of
+    # parameters are not always smaller than ids of other locals: replace_imported_func creates the parameters last)
+    ws2 = Evaluator(F, local_policy(F, p, public_events=True, events=[r'HashMap::insert$', r'Vec::<T, A>::push$|Vec::push$|VecDeque::push_back$'])) \
+        .run_fn(p, [sym('self'), sym('module')])
+    kept = skipped_when_arg = 0
+    bad = None
+    for w in ws2:
+        pushes = [e for e in w.trace if e['kind'] == 'call' and re.search(r'::(push|push_back)$', e['callee']) and e['loops']
+                  and e['args'][-1][0] == 'elem']
+        mem = {}
+        for k, v in w.assumptions:
+            if isinstance(k, tuple) and k and k[0] == 'atom' and isinstance(v, bool):
+                t, val = k[1], v
+                while t[0] == 'un' and t[1] == 'Not':
+                    t, val = t[2], not val
+                if 'self.args' in show(t):
+                    mem[show(t)] = val
+        for e in pushes:
+            el = show(e['args'][-1])
+            tests = [v for t, v in mem.items() if el in t]
+            if not tests:
+                bad = 'the local %s is set aside for a declared slot without testing whether it is one of self.args' % el[:60]
+            elif any(tests):
+                bad = 'a local that is one of self.args is also given a declared slot'
+            else:
+                kept += 1
+        if not pushes and any(mem.values()):
+            skipped_when_arg += 1
+    if bad:
+        res.bad('emit/locals/non-params', 'emit_locals: ' + bad + ': a used local would be left without an index, or a parameter '
+                'would be declared twice')
+    elif kept and skipped_when_arg:
+        res.ok('emit/locals/non-params', {'declared': 'used locals that fail the membership test against self.args'})
+    else:
+        res.error('emit_locals: no analysable selection of the non-parameter locals (kept=%d, skipped=%d)' % (kept, skipped_when_arg))
